@@ -321,7 +321,7 @@ class Ctx:
                     self.obligation('correspondence:%s:count' % name, False, 'expected %d got %s' % (n_here, m.group(1)))
                 idx = re.findall(r'\d+', m.group(2))
                 bad.extend(('mismatch', k + int(i), '') for i in idx)
-            for ext in ('.v', '.vo', '.vok', '.vos', '.glob'):
+            for ext in (('.vo', '.vok', '.vos', '.glob') if os.environ.get('VERIF_KEEP_CASES') else ('.v', '.vo', '.vok', '.vos', '.glob')):
                 try:
                     os.unlink(fn[:-2] + ext)
                 except OSError:
